@@ -90,7 +90,7 @@ func runC15(p *chk.Prog, r *chk.Report) {
 	uc := need(x, p, ctrlPkg, "FRRK8sReconciler", "UpdateConfig")
 	if uc != nil {
 		g := uc.Graph()
-		st := g.Find(uc.IsAssignPat("RECV.desiredConfiguration", "D.DeepCopy()"))
+		st := g.Find(uc.IsAssignPat("RECV.desiredConfiguration", "V", chk.H("V", definedBy(g, "D.DeepCopy()"))))
 		ok := len(st) == 1
 		if ok {
 			// the store precedes the signal
